@@ -110,6 +110,9 @@ def check_config(cfg, w, rep):
                 short(lf.path), sorted(shapes)), loc=e.loc(), config=cfg, rule="c-writes-to-temp")
     rep.floor("data_write_sites", n_w, 4, cfg)
 
+    # ---- (f) a pre-allocated temp file never reaches publication longer than what was written ----
+    check_preallocation(cfg, w, rep)
+
     # ---- (e) a failed publication is an error unless the destination is shown to exist ----
     for p in w.roles.content_closes:
         lf = prog.fns[p]
@@ -200,3 +203,66 @@ def check_close(cfg, w, rep, lf):
             rep.violation("e-async:%s" % key,
                           "`%s`: the close closure can report %s — success not tied to persist succeeding or to the destination existing" % (
                               short(lf.path), sorted(set(map(str, tied)))), loc=span_str(t.span), config=cfg, rule="e-failed-publication")
+
+
+def check_preallocation(cfg, w, rep):
+    """The staging file is pre-sized (fallocate / set_len) only together with a mapping whose unused tail is trimmed
+    before publication: (f1) after an allocation, a success return is reachable only through the Ok arm of the mapping
+    call or through set_len(0); (f2) every publication is dominated by the trimming of the mapped file."""
+    prog = w.prog
+    n = 0
+    for e in w.inv.effects:
+        if e.kind != "Fallocate":
+            continue
+        af = effect_fn(w, e)
+        for (g, b, blk, t) in prog.callers_of(af):
+            n += 1
+            key = fn_key(g)
+            cf = prog.cfg(b)
+
+            def is_map(o):
+                return o.kind == "call" and o.callee is not None and o.callee.path.startswith("memmap2::") and "map_mut" in o.callee.path and not o.path
+            gates = match_gates(prog, b, is_map, "Ok") + try_gates(prog, b, is_map)
+            undo = set()
+            for e2 in w.own_effects(g):
+                if e2.kind == "HandleMut" and e2.body is b and e2.term.callee.path.endswith("set_len"):
+                    ln = w.sym.of_operand(b, e2.term.args[1])
+                    if ln == ("const", 0):
+                        undo.add(e2.blk)
+            start = t.target if t.target is not None else blk.i
+            reach = cf.reachable(start, cut_edges={g_.edge for g_ in gates}, cut_nodes=undo)
+            bad = [rd for rd in ret_defs(prog, b) if rd.cls in ("success", "unknown") and rd.blk in reach]
+            if bad:
+                rep.violation("f-prealloc:%s" % key,
+                              "`%s` pre-allocates the staging file and can then return without a mapping and without undoing the allocation: plain writes "
+                              "into a pre-sized file publish zero padding under the data's address when fewer bytes than declared are written" % short(g.path),
+                              loc=blk_loc(b, bad[0].blk), config=cfg, rule="f-preallocation")
+            else:
+                rep.ob(cfg, "f-preallocation", key, "after pre-allocating, `%s` returns only with a mapping (Ok arm of map_mut) or after set_len(0)" % short(g.path))
+    if n == 0:
+        return
+    for p in w.roles.content_closes:
+        lf = prog.fns[p]
+        for e in w.own_effects(lf):
+            if e.kind != "Persist":
+                continue
+            b = e.body
+            cf = prog.cfg(b)
+            ok = False
+            for bb, bblk, tt, gg in prog.local_calls(lf):
+                if bb is b and any(x.kind == "HandleMut" for x in w.reach_effects(gg)) and cf.dominates(bblk.i, e.blk):
+                    # the trimming call's failure must prevent publication: `?` / is_err() gate
+                    def is_trim(o, tt=tt):
+                        return o.kind == "call" and o.term is tt and not o.path
+
+                    def is_err_of_trim(o, tt=tt):
+                        return o.kind == "call" and o.callee is not None and o.callee.path == "std::result::Result::<T, E>::is_err" and \
+                            any(x.kind == "call" and x.term is tt for x in prog.resolve_op(o.body, o.term.args[0], OKFLOW, o.blk))
+                    gts = try_gates(prog, b, is_trim) + match_gates(prog, b, is_trim, "Ok") + bool_gates(prog, b, is_err_of_trim, False)
+                    if gts and not unreachable_without(prog, b, gts, [e.blk]):
+                        ok = True
+            if ok:
+                rep.ob(cfg, "f-trim-before-publish", fn_key(lf), "`%s` trims the mapped temp file to the written length (and checks the result) before persist" % short(lf.path))
+            else:
+                rep.violation("f-trim:%s" % fn_key(lf), "`%s` publishes a possibly pre-allocated temp file without first trimming it to the bytes written" % short(lf.path),
+                              loc=e.loc(), config=cfg, rule="f-trim-before-publish")
